@@ -75,6 +75,16 @@ let handle (lines : string list) : unit =
             Printf.printf "flag %s\n" (string_of_z (get_flag s'))
           | ["maxdelta"; v] -> let s' = set_max_delta_cap s (z_of_string v) in st := Some s';
             Printf.printf "maxdelta %s\n" (string_of_z s'.max_delta_cap)
+          | ["wrapprobe"; c; m] ->
+            let c = z_of_string c and m = z_of_string m in
+            let delta = if Z.ltb Z0 m && Z.ltb m c then m else c in
+            if Z.eqb c Z0 || Z.ltb (Z.add c delta) two32 || not (Z.ltb s.used s.capacity)
+            then print_endline "wrapprobe skip"
+            else begin
+              let fake = { s with capacity = c; used = c; max_delta_cap = m } in
+              let (_, r) = alloc fx (fun _ _ -> false) fake in
+              print_endline (match r with None -> "wrapprobe NULL" | Some _ -> "wrapprobe BLOCK")
+            end
           | ["destroy"] -> drop ()
           | _ -> print_endline "?"))) lines;
   drop ()
